@@ -43,4 +43,7 @@ def run(tree="/repo", keep_log=None):
 
 
 def main(argv):
-    return run(argv[0] if argv else "/repo")
+    # one suite run at a time on this machine: src/cache's tests listen on a fixed port (8989) and several packages are
+    # timing-sensitive, so two concurrent runs make each other fail
+    with core.Lock("baseline"):
+        return run(argv[0] if argv else "/repo")
